@@ -40,12 +40,13 @@ CFG = {
         "Swat4.C06.udp_empty_panics",
         "Swat4.C06.tcp_total",
         "Swat4.C06.tcp_handle_total",
-        "Swat4.C06.at_most_one_reply",
-        "Swat4.C06.tcp_at_most_one_reply",
         "Swat4.C06.rejected_no_effect",
         "Swat4.C06.unreached_no_effect",
         "Swat4.C06.malformed_no_effect",
         "Swat4.C06.only_heartbeat_keepalive_mutate",
+        "Swat4.C06.mutation_implies_decodable",
+        "Swat4.C06.reaches_implies_decodable",
+        "Swat4.C06.acts_as_wellformed",
         "Swat4.C06.facts_ok",
     ],
     "shards": (4, 8),
@@ -65,6 +66,14 @@ CFG = {
         "udpserver only hands datagrams with n > 0 bytes to the dispatcher (pkg/udp/udpserver/server.go); udp_empty_panics shows the guard is needed",
         "healthy storage; the request parser model covers browsing.NewRequest only - filter parsing and listing are C03/C01",
         "'returns promptly' and 'the process keeps running' are run-time facts: measured (udpsrv stream, TCP deadlines), not proved",
+        "'sends at most one reply' is NOT a proof obligation: the model's Outcome/TcpOutcome types cannot express two replies, so "
+        "at_most_one_reply/tcp_at_most_one_reply hold for any function and were removed from the audited list; the clause is covered by the "
+        "harness only (udpsrv stream counts reply datagrams on a real socket, oracle replies <= datagrams; in-process the single response "
+        "slice and for TCP the total bytes written are compared with the model)",
+        "'well-formed' is ReporterSpec.decode? (independent strict decoder) up to three documented parser leniencies (ReporterSpec.Quirk: "
+        "keepalive with trailing bytes, heartbeat whose last string lacks its NUL, unknown strings not in name/value pairs); "
+        "malformed_no_effect is definitional (WellFormedMutating is defined from the model: 'reaches a use case and is not answered err'); "
+        "rejected_no_effect (error => nothing written) and unreached_no_effect (control flow) are facts about the model, not well-formedness statements",
         "the REST port is parsed by net/http + gin (Recovery installed); no repo code below the handlers to model - see C17",
     ],
     "trusted_base": COMMON_TRUSTED + [
@@ -72,7 +81,7 @@ CFG = {
         "the inventory of partial operations modelled: payload[0]; payload[1:5], payload[5:] (guarded by len<5); data[:2], data[9:dataLen], unparsed[:8], unparsed[8:], fields[0], fields[1:], Uint16, Uint32",
     ],
     "manifest": {
-        "text": "Lean theorems udp_total (Heartbeat.dispatch never panics on a non-empty datagram), tcp_total/tcp_handle_total (the browser request parser never panics), at_most_one_reply, rejected_no_effect (an error outcome leaves registry, instances and queue unchanged), malformed_no_effect (state unchanged unless the datagram is a heartbeat/removal/keepalive that reaches and is accepted by its use case); tied to the code by outcome + full-dump comparison on malformed streams and by real TCP connections to browser.Handler.Handle; liveness of the real udpserver is measured.",
+        "text": "Lean theorems udp_total (Heartbeat.dispatch never panics on a non-empty datagram), tcp_total/tcp_handle_total (the browser request parser never panics), rejected_no_effect (an error outcome leaves registry, instances and queue unchanged), malformed_no_effect (definitional: state unchanged unless the model itself reaches and accepts a use case), mutation_implies_decodable (a datagram that changes the state is accepted by the independent decoder ReporterSpec.decode? as a heartbeat/removal/keepalive, or exhibits one of three documented leniencies of the real parsers - keepalive with trailing bytes, last string unterminated, unknown string without a value - each witnessed on the model and confirmed on the real dispatcher), acts_as_wellformed (every such datagram has exactly the effect and outcome of the encoding of a well-formed message); 'at most one reply' is not a theorem (the outcome types cannot express two replies): it is covered by the harness's reply count only; tied to the code by outcome + full-dump comparison on malformed streams and by real TCP connections to browser.Handler.Handle; liveness of the real udpserver is measured.",
         "level_note": "Trusted: Lean kernel; axioms propext, Quot.sound, Classical.choice; the inventory of partial Go operations the model makes explicit; the differential run as evidence that the models behave like the code; generated Facts.lean. Promptness/liveness are measurements.",
         "technique": "Lean 4 proof (totality by case analysis over explicit partial operations; frame by 'error => no write' per use case) + differential correspondence + socket-level measurement",
         "design_ref": "DESIGN.md §5 C06",
